@@ -230,6 +230,12 @@ func VerifScenarios() []VScenario {
 		a := b.user("a")
 		b.line(a, "JOIN #c")
 	})
+	mk("limits-room", func(b *vbuilder) { // MaxChannels=1 with room for exactly one more channel; a link with a pseudo-client
+		b.config(vCfgLimits)
+		l := b.services()
+		b.pseudo(l, "ChanServ")
+		b.user("a")
+	})
 	mk("glined", func(b *vbuilder) { // address of former session b banned by an operator
 		b.config(vCfgBase)
 		a := b.user("a")
